@@ -44,6 +44,7 @@ def run(prog, R, tier="quick", only_rule=None):
     # orders versions of a key by it
     from rules.props import c14
     c14.c14c(prog, R, rid="C03.j")
+    c03k(prog, R)
 
 
 def norm_bound(p):
@@ -302,3 +303,43 @@ def c03f(prog, R, rid="C03.f"):
                 "a scan meet inside one key's versions the old version is not drained and surfaces as a duplicate", "",
                 str([hir_expr_str(m["e"]) for m in ms]))
     r.floor(19)
+
+
+MIRRORED = ["table::block_index::two_level::Iter", "table::block_index::volatile::Iter", "table::block_index::full::Iter",
+            "table::block_index::BlockIndexIterImpl", "table::iter::Iter", "run_reader::RunReader", "merge::Merger<I>",
+            "double_ended_peekable::DoubleEndedPeekable<T, I>"]
+NOT_MIRRORED = {
+    "mvcc_stream::MvccStream<I>": "newest-version selection is direction dependent (front: first of the key, back: last before the key changes)",
+    "table::block::decoder::Decoder<'_, Item, Parsed>": "reverse scan walks a restart-interval stack; forward scan decodes in place",
+}
+
+
+def c03k(prog, R, rid="C03.k"):
+    """`consistent from both ends`: in every double-ended iterator of the read path, next_back is the mirror image of next
+    (lo <-> hi, front <-> back, next <-> next_back): same steps in the same order, in particular the hand-over to the buffer
+    the *other* end has already loaded happens, and happens only after the own side and the index are exhausted."""
+    from rules.engine import mirror_diff
+    r = R.rule(rid, "next_back is the mirror image of next in every double-ended iterator of the read path", "G")
+    for ty in MIRRORED:
+        d = mirror_diff(prog, ty)
+        if d == "missing":
+            r.anchor_missing("next / next_back of " + ty)
+            continue
+        r.check(d is None, "%s|next (mirrored) == next_back" % ty,
+                "the two directions of %s are no longer mirror images (%s): items are skipped, duplicated or reordered when a scan "
+                "is consumed from both ends" % (ty, d), "", d or "")
+    # and the forward direction itself hands over to the buffer the back side has loaded only after its own buffer and
+    # the index are exhausted (a change applied symmetrically to both directions would keep them mirror images)
+    from rules.engine import event_skeleton
+    for ty, own, index_step, other in (("table::block_index::two_level::Iter", "letx:self.lo_consumer", "letx:self.tli", "letx:self.hi_consumer"),
+                                       ("table::iter::Iter", "letx:self.lo_data_block", "call:self.index_iter.next", "letx:self.hi_data_block")):
+        h = prog.hir.get("<%s as std::iter::Iterator>::next" % ty)
+        if not h:
+            continue
+        ev = event_skeleton(h["body"])
+        pos = {k: (ev.index(k) if k in ev else None) for k in (own, index_step, other)}
+        ok = None not in pos.values() and pos[own] < pos[index_step] < pos[other]
+        r.check(ok, "%s::next|own buffer, then the index, then the other end's buffer" % ty,
+                "the forward scan serves the block buffered by the back side before the blocks in between (or never): %s" % pos, "", str(pos))
+    r.floor(10)
+
